@@ -24,7 +24,7 @@ CHECKS = {
         "batches": [("C06", "asan", 4, 4000, 60000)],
         "rule": ("one evaluation = one simulated run: 1-6 processor instances (26 kinds: FirFilter R/C, FftFilter R/C and with complex taps on a real stream / real taps on a complex stream, FIRDecimator, FIRInterpolator, "
                  "FIRRateConverter, FIRResampler, Delay R/C, MedianFilter, MAFilter R/C, HilbertFilter, Tuner, Agc R/C, Compressor, Limiter, NoiseGate, "
-                 "LMS/NLMS R/C, RLS R/C) with seeded parameters, streams (gaussian, impulses, steps, bursts with silence, tones, 60 dB level changes, 120 dB bursts) and framings, constructed lazily (next to live siblings; 15 % get a twin with equal integer parameters) and interleaved on 1-4 simulated threads with churn. "
+                 "LMS/NLMS R/C, RLS R/C) with seeded parameters, streams (gaussian, impulses, steps, bursts with silence, tones, 60 dB level changes, 120 dB bursts, short patterns repeated so that whole frames recur) and framings, constructed lazily (next to live siblings; 15 % get a twin with equal integer parameters) and interleaved on 1-4 simulated threads with churn. Object-lifetime events inside a stream: 1 in 5 instances is replaced mid-stream by a copy of itself, forked into original + copy, replaced by a move-constructed successor, or copy-ASSIGNED over a used object of the same configuration; 1 in 7 is offered a call of invalid shape that must be rejected without effect. "
                  "5 % of the instances (thorough 12 %) additionally enumerate ALL 2^(n-1) compositions of their 2..9 (11) granule stream, each on a fresh instance. A case is non-trivial when the stream was cut into >= 2 frames; cases are distinct by (kind, log2 memory class, framing style, "
                  "{frame shorter than memory, single-sample frame, frame spanning two internal blocks}, exact composition for the <=12-granule "
                  "bitmask framings)."),
@@ -39,7 +39,7 @@ CHECKS = {
                  "odd and even), each cut into frames by the transport. Non-trivial: Tuner stream with >= 1 counter wrap and >= 2 frames, or Hilbert "
                  "stream with >= 2 frames; distinct by (processor, log2 fs or length class, fractional/negative f, wrap inside frame / on boundary, "
                  "number of wraps, framing style)."),
-        "assumptions": ["reference phase: exact integer reduction of trunc(f)*k mod fs plus the fractional part in long double", "tolerance 1e-7*|x[k]| for the Tuner; exact equality for the delayed real part",
+        "assumptions": ["reference phase: exact integer reduction of trunc(f)*k mod fs plus the fractional part in long double", "tolerance 1e-7*|x[k]| for the Tuner; exact equality for the delayed real part; the imaginary part of every (sub-sampled for long streams) HilbertFilter output sample must equal the filter's own impz() applied to the true input history in long double (1e-9 of sum|h| max|x|): state across calls, not the quality of the taps",
                         "what hilbert() computes and the 1e-3 quadrature accuracy of the designed filter are pure numerics and are NOT decided by this check; only the history independence of hilbert(x) / hilbert(x, n) is (1 run in 4 calls them with 3-6 lengths sharing a power-of-two bucket, long first, and compares every result bitwise-close with the same call in a fresh thread)"],
     },
     "C20": {
@@ -61,7 +61,7 @@ CHECKS = {
         "batches": [("C12", "asan", 4, 12000, 100000)],
         "rule": ("one evaluation = one simulated history of one adaptive filter (LMS / NLMS / RLS, real or complex, length 2..64, parameters over the stable "
                  "range, unknown noise-free FIR system no longer than the filter, white input): 1-10 events {frame(n), n single-sample frames, lock, unlock} "
-                 "(plus input pauses; 1 in 2 unknown systems has a bulk delay) followed by a settling phase whose length is the liveness bound computed from the parameters. Oracles per call: e = d - y, a-priori output from coeffs() read before the call, locked = fixed FIR with unchanged coeffs(), and on single-sample LMS/NLMS calls the update recursion c' = leak c + mu e conj(u) (/(|u|^2 + eps)). Non-trivial: >= 1 lock toggle strictly "
+                 "(plus input pauses; 1 in 2 unknown systems has a bulk delay) followed by a settling phase whose length is the liveness bound computed from the parameters. Oracles per call: e = d - y, a-priori output from coeffs() read before the call, locked = fixed FIR with unchanged coeffs(), and on single-sample LMS/NLMS calls the update recursion c' = leak c + mu e conj(u) (/(|u|^2 + eps)); a copy made mid-stream is fed the same calls and must agree bit for bit; a call with mismatched x/d lengths must be rejected and leave coeffs() and every later y/e untouched. Non-trivial: >= 1 lock toggle strictly "
                  "inside the frame sequence; distinct by (algorithm, type, event pattern)."),
         "assumptions": ["complex data: either conjugation convention (sum c*x or sum conj(c)*x) is accepted, but one per run, and the same one for the convergence target",
                         "convergence bounds: NLMS 5*14*L/(mu(2-mu))+200 samples (leak 1); RLS 2x the first n with (lambda^n/delta)/R_n < 3e-4 plus 10 L; runs "
@@ -97,12 +97,12 @@ CHECKS = {
         "batches": [("C10", "asan", 1, 3000, 60000), ("C10", "asan", 2, 3000, 60000), ("C10", "asan", 4, 3000, 60000)],
         "rule": ("one evaluation = one simulated history of 8-40 requests (thorough: 1 % of the runs have 10^4 requests over 40 lengths) over an alphabet of "
                  "3-8 lengths mixing cache-bypass sizes, powers of two, primes <= 41, primes > 41, composites sharing prime sub-plans and even-real lengths: "
-                 "fft/rfft/ifft/irfft/fft(x,n)/xcorr/hilbert/FftFilter/czt (a = 1 and a != 1), construct-and-keep FftPlan/FftPlanR/IfftPlan/IfftPlanR/CztPlan in 4 slots, solve through "
+                 "fft/rfft/ifft/irfft/fft(x,n)/xcorr/hilbert/FftFilter/czt (a = 1 and a != 1)/welch/stft+istft/gccphat+finddelay/thd/resample, a sweep over a whole family of lengths, a plan object applied to an input of ANOTHER length (rejected, inside the history), construct-and-keep FftPlan/FftPlanR/IfftPlan/IfftPlanR/CztPlan in 4 slots, solve through "
                  "a kept plan, drop it; 1-3 threads in a hand-over chain (a thread exits, its caches are destroyed, its kept plans live on in the successor). "
                  "Three builds with DSPLIB_FFT_CACHE_SIZE 1, 2, 4. Non-trivial: >= 1 eviction; distinct by (capacity, request sequence). states = distinct "
                  "(capacity, complex key list, real key list); transitions = distinct (state, request, state')."),
         "assumptions": ["the cache-access events and key lists come from the DSPLIB_VERIF hook in lib/fft/fft.cpp / lib/lru-cache.h (read-only, add-only)",
-                        "the reference LRU is driven by the accesses that happened: it does not predict which sub-plans the planner asks for",
+                        "the reference LRU is driven by the accesses that happened (it does not predict which sub-plans the planner asks for) and, in addition, counts a completed top-level fft/rfft/ifft/irfft/plan-construction request as a use of its length: on a tree that looks every request up this is a no-op (probe request_not_most_recent_in_event_model = 0)",
                         "retention clause is checked for single-length requests (fft, rfft, ifft, irfft): repeated immediately they must cause no miss event",
                         "results are compared with the same call in a fresh OS thread (tolerance 1e-9 of scale); a kept plan re-solving its first input must "
                         "reproduce its first output bit for bit"],
@@ -112,7 +112,7 @@ CHECKS = {
                     ("C09", "tsan", 1, 500, 10000), ("C09F", "tsan", 4, 160, 1500, 1), ("C09F", "asan", 4, 160, 1500, 1)],
         "rule": ("one evaluation = one simulated run: 2-8 (thorough: 16) real threads, 3-10 ops each (fft/rfft/ifft/irfft over power-of-two, composite and prime "
                  "lengths, xcorr, FftFilter, welch, mscohere, stft+istft, hilbert, thd/sinad, czt, gccphat, finddelay, medfilt, resample, window::kaiser, a random stream processor, rng/rand/randn/randi/awgn, primes/factor) plus 0-3 plan "
-                 "objects (FftPlan, FftPlanR, IfftPlan, IfftPlanR, CztPlan of every length class) created before the threads start and solved concurrently; "
+                 "objects (FftPlan, FftPlanR, IfftPlan, IfftPlanR, CztPlan of every length class) created before the threads start and solved concurrently; 0-2 const input arrays created before the threads start and passed by const reference to calls in several threads (fft/ifft/rfft/irfft/xcorr/plan solve/FirFilter/reductions/copies; they must be bitwise unchanged afterwards); 0-2 processor prototypes (already running) from which threads copy-construct their own processor and stream through it concurrently (handle classes Agc/FIRResampler get a fresh object instead: their copies share state by design); "
                  "12 % of the threads only start when another thread has exited (cold caches). Schedule policy per run: op-boundary switches, uniform "
                  "basic-block preemption (p log-uniform 1e-5..1e-2), PCT with 1-3 priority change points, or one starved thread. Builds with cache size 1/2/4; "
                  "engine C09F: one run per process without warm-up so that the guarded static in window.cpp is first used inside the simulation. "
@@ -120,7 +120,7 @@ CHECKS = {
         "assumptions": ["result oracle: the same thread's op list run alone in a fresh thread, using the same shared plan objects (tolerance 1e-9; random draws, primes, "
                         "factor exactly)", "race oracle: ThreadSanitizer (clang 14) with the scheduler's futex hand-off invisible to it; first report ends the run",
                         "preemption granularity is the basic-block edge of instrumented code (library, headers, harness); libstdc++/libc internals are not preempted"],
-        "required_probes": ["probe.shared_plan_solved_by_2plus_threads", "fault.preempt", "fault.thread_exit_and_cold_restart"],
+        "required_probes": ["probe.shared_plan_solved_by_2plus_threads", "fault.preempt", "fault.thread_exit_and_cold_restart", "probe.const_input_array_used_by_2plus_threads", "probe.prototype_copied_and_run_by_2plus_threads"],
     },
     "C05": {
         "batches": [("C05", "asan", 4, 20000, 4000000)],
